@@ -13,17 +13,24 @@ import (
 	"bytes"
 	"fmt"
 	"math"
+	"encoding/json"
 	"math/rand"
+	"net"
+	"net/http"
+	"net/http/httptest"
 	"net/url"
 	"os"
 	"sort"
 	"strconv"
 	"strings"
+	"sync"
+	"time"
 	"unicode"
 
 	"github.com/gobwas/glob"
 	"github.com/hashicorp/consul/api"
 
+	"github.com/fabiolb/fabio/config"
 	"github.com/fabiolb/fabio/registry/consul"
 	"github.com/fabiolb/fabio/route"
 
@@ -609,13 +616,15 @@ func newTable(text string) (t route.Table, err error, panicked bool, pv interfac
 }
 
 // doRegs runs one case: the entries, through the real build, Parse and NewTable.
-func doRegs(run *vh.Run, class string, prefix string, env map[string]string, es []entry) {
+// entryFacts: exclusions of the modelled domain, and what the libraries say about the strings of
+// the entries (also of commands the implementation drops: the model re-runs the validation).
+func entryFacts(run *vh.Run, prefix string, env map[string]string, es []entry) (*facts, bool) {
 	f := newFacts()
 	for _, e := range es {
 		for _, s := range append([]string{e.Name, e.Addr, e.Node}, e.Tags...) {
 			if hasUnicodeSpace(s) {
 				run.Exclude("non-ASCII Unicode space in the entry (strings.TrimSpace / Fields are modelled on ASCII)")
-				return
+				return nil, false
 			}
 			f.runes(s)
 		}
@@ -627,12 +636,33 @@ func doRegs(run *vh.Run, class string, prefix string, env map[string]string, es 
 				h := strings.SplitN(r, "/", 2)[0]
 				if !ascii(h) {
 					run.Exclude("non-ASCII host part in a routing tag (strings.ToLower is modelled on ASCII)")
-					return
+					return nil, false
 				}
-				if rt, _, ok := consul.VerifC14ParseURLPrefixTag(tt, prefix, env); ok {
+				if rt, opts, ok := consul.VerifC14ParseURLPrefixTag(tt, prefix, env); ok {
+					// the model validates commands the implementation dropped as well: what the
+					// libraries say about their strings has to be in the case
 					hh, pp := hostpath(rt)
 					f.glob(strings.ToLower(hh))
 					f.glob(pp)
+					addr := e.Addr
+					if addr == "" {
+						addr = e.Node
+					}
+					addr = net.JoinHostPort(addr, strconv.Itoa(e.Port))
+					f.url("http://" + addr + "/")
+					for _, sch := range []string{"tcp", "https", "grpc", "grpcs"} {
+						f.url(sch + "://" + addr)
+					}
+					for _, o := range strings.Fields(opts) {
+						if strings.HasPrefix(o, "weight=") {
+							f.weight(o[len("weight="):])
+						}
+						if strings.HasPrefix(o, "redirect=") {
+							if rd := strings.Split(o[len("redirect="):], ","); len(rd) == 2 {
+								f.url(rd[1])
+							}
+						}
+					}
 				}
 			}
 		}
@@ -640,8 +670,55 @@ func doRegs(run *vh.Run, class string, prefix string, env map[string]string, es 
 	for _, v := range env {
 		if !ascii(v) {
 			run.Exclude("non-ASCII environment value")
-			return
+			return nil, false
 		}
+	}
+	return f, true
+}
+
+func doRegs(run *vh.Run, class string, prefix string, env map[string]string, es []entry) {
+	f, ok := entryFacts(run, prefix, env, es)
+	if !ok {
+		return
+	}
+	total := 0
+	for _, e := range es {
+		total += len(e.Name) + len(e.Addr)
+		for _, t := range e.Tags {
+			total += len(t)
+		}
+	}
+	if total >= 60000 {
+		// a command near bufio.Scanner's 64 KiB token limit is outside Model/RouteText.v: no Coq case;
+		// the real build / NewTable must still not fail or panic, and the short entries keep their routes
+		var cmds []string
+		for _, e := range es {
+			svc := &api.CatalogService{ServiceName: e.Name, ServiceID: e.ID, ServiceAddress: e.Addr, Address: e.Node, ServicePort: e.Port, ServiceTags: e.Tags}
+			cmds = append(cmds, consul.VerifC14Build(svc, prefix, env)...)
+		}
+		sort.Sort(sort.Reverse(sort.StringSlice(cmds)))
+		t, err, panicked, pv := newTable(strings.Join(cmds, "\n"))
+		if panicked || err != nil {
+			run.Violation(run.NextID(), fmt.Sprintf("route.NewTable rejects the text generated from entries with a very long tag: %v %v", err, pv), len(cmds))
+		} else {
+			n := 0
+			for _, rs := range t {
+				for _, r := range rs {
+					n += len(r.Targets)
+				}
+			}
+			short := 0
+			for _, c := range cmds {
+				if len(c) < 60000 {
+					short++
+				}
+			}
+			if n < 1 || short < 1 {
+				run.Violation(run.NextID(), "the routes of the short entries beside a very long tag are missing", len(cmds))
+			}
+		}
+		run.Exclude("command near the 64 KiB line limit (outside the parser model): run through the real build / NewTable")
+		return
 	}
 
 	var all []string
@@ -750,8 +827,209 @@ func doRegs(run *vh.Run, class string, prefix string, env map[string]string, es 
 	for _, e := range es {
 		regs = append(regs, vh.App("G", vh.HxS(e.Name), vh.HxS(e.ID), vh.HxS(e.Addr), vh.HxS(e.Node), vh.Z(int64(e.Port)), strList(e.Tags)))
 	}
-	run.Add(class, vh.App("CRegs", envTerm(env), vh.HxS(prefix), f.npTerm(), sortedTerm(f.urls), f.globTerm(), sortedTerm(f.wl),
+	run.Add(class, vh.App("CRegs", envTerm(env), vh.HxS(prefix), sortedTerm(f.urls), f.globTerm(), sortedTerm(f.wl),
 		vh.List(regs), vh.List(cmdsT), vh.List(defsT), tbl), sample)
+}
+
+
+// ---------- the real makeConfig against a fake catalog ----------
+
+type fakeCatalog struct {
+	mu   sync.Mutex
+	svcs map[string][]*api.CatalogService
+	fail map[string]bool
+	srv  *httptest.Server
+}
+
+func newFakeCatalog() *fakeCatalog {
+	fc := &fakeCatalog{}
+	fc.srv = httptest.NewServer(http.HandlerFunc(func(w http.ResponseWriter, r *http.Request) {
+		const p = "/v1/catalog/service/"
+		if !strings.HasPrefix(r.URL.Path, p) {
+			http.Error(w, "not found", 404)
+			return
+		}
+		name := strings.TrimPrefix(r.URL.Path, p)
+		fc.mu.Lock()
+		defer fc.mu.Unlock()
+		if fc.fail[name] {
+			http.Error(w, "catalog unavailable", 500)
+			return
+		}
+		l := fc.svcs[name]
+		if l == nil {
+			l = []*api.CatalogService{}
+		}
+		w.Header().Set("Content-Type", "application/json")
+		json.NewEncoder(w).Encode(l)
+	}))
+	return fc
+}
+
+var theCatalog *fakeCatalog
+var hangs int // rounds that did not return: after three the remaining rounds are skipped
+
+// doConfig runs one round of the real ServiceMonitor.makeConfig: every entry is a passing
+// instance on node "n<i>"; lookups of the services in failing return an error.  A round that
+// does not return within the deadline is a violation (route updates of every service are delayed).
+func doConfig(run *vh.Run, class string, prefix string, dc string, monitors int, es []entry, failing map[string]bool) {
+	env := map[string]string{"DC": dc}
+	if hangs >= 3 {
+		return
+	}
+	for _, e := range es {
+		if e.Name == "" || strings.ContainsAny(e.Name, "/%?#") || !ascii(e.Name) {
+			return // not addressable through the catalog URL of this fake
+		}
+	}
+	var live []entry
+	for _, e := range es {
+		if !failing[e.Name] {
+			live = append(live, e)
+		}
+	}
+	f, ok := entryFacts(run, prefix, env, live)
+	if !ok {
+		return
+	}
+	total := 0
+	for _, e := range es {
+		for _, t := range e.Tags {
+			total += len(t)
+		}
+	}
+	if total >= 60000 {
+		return
+	}
+	fc := theCatalog
+	fc.mu.Lock()
+	fc.svcs, fc.fail = map[string][]*api.CatalogService{}, failing
+	var checks []*api.HealthCheck
+	for i, e := range es {
+		node := fmt.Sprintf("n%d", i)
+		fc.svcs[e.Name] = append(fc.svcs[e.Name], &api.CatalogService{Node: node, Address: e.Node, ServiceID: e.ID, ServiceName: e.Name,
+			ServiceAddress: e.Addr, ServicePort: e.Port, ServiceTags: e.Tags})
+		checks = append(checks, &api.HealthCheck{Node: node, CheckID: "service:" + e.ID, Status: "passing", ServiceID: e.ID, ServiceName: e.Name, ServiceTags: e.Tags})
+	}
+	fc.mu.Unlock()
+	client, err := api.NewClient(&api.Config{Address: strings.TrimPrefix(fc.srv.URL, "http://")})
+	if err != nil {
+		panic(err)
+	}
+	mon := consul.NewServiceMonitor(client, &config.Consul{TagPrefix: prefix, ServiceMonitors: monitors}, dc)
+	sample := map[string]interface{}{"prefix": prefix, "dc": dc, "monitors": monitors, "catalog": es, "lookup_fails": failing}
+	type res struct {
+		text string
+		pv   interface{}
+	}
+	done := make(chan res, 1)
+	go func() {
+		var r res
+		_, r.pv = vh.Recover(func() { r.text = consul.VerifC14MakeConfig(mon, checks) })
+		done <- r
+	}()
+	id := run.NextID()
+	var r res
+	select {
+	case r = <-done:
+	case <-time.After(4 * time.Second):
+		hangs++
+		run.Violation(id, "ServiceMonitor.makeConfig did not return within 4 s: the route update of every service is delayed (a service without commands or with a failing catalog lookup beside other services)", sample)
+		return
+	}
+	if r.pv != nil {
+		run.Violation(id, fmt.Sprintf("ServiceMonitor.makeConfig panicked: %v", r.pv), sample)
+		return
+	}
+	for _, line := range strings.Split(r.text, "\n") {
+		f.scanLine(line)
+	}
+	if !f.ok {
+		if _, _, panicked, pv := newTable(r.text); panicked {
+			run.Violation(id, fmt.Sprintf("route.NewTable panicked on the text makeConfig pushed: %v", pv), sample)
+		}
+		run.Exclude("weight literal outside the modelled binary64 domain (Inf/NaN/subnormal): run through the real NewTable, no panic required")
+		return
+	}
+	if t, err, panicked, pv := newTable(r.text); panicked {
+		run.Violation(id, fmt.Sprintf("route.NewTable panicked on the text makeConfig pushed: %v", pv), sample)
+	} else if err == nil {
+		for _, rs := range t {
+			for _, rt := range rs {
+				for _, tg := range rt.Targets {
+					f.url(tg.URL.String())
+					if _, ok := wtTerm(tg.FixedWeight); !ok {
+						run.Exclude("table weight outside the modelled binary64 domain")
+						return
+					}
+				}
+			}
+		}
+	}
+	sample["text"] = r.text
+	var regs []string
+	for _, e := range live {
+		regs = append(regs, vh.App("G", vh.HxS(e.Name), vh.HxS(e.ID), vh.HxS(e.Addr), vh.HxS(e.Node), vh.Z(int64(e.Port)), strList(e.Tags)))
+	}
+	run.Add(class, vh.App("CConfig", envTerm(env), vh.HxS(prefix), sortedTerm(f.urls), f.globTerm(), sortedTerm(f.wl), vh.List(regs), vh.HxS(r.text)), sample)
+}
+
+// ---------- histories: the same process sees the catalog again and again ----------
+
+// mutate changes what is NOT part of the identity (name, address, port, routing tags) of an
+// instance: its plain tags (good -> bad -> good), or -- kind 1 -- the options of a routing tag.
+func (g *gen) mutate(e entry, bad bool) entry {
+	var rts, plain []string
+	for _, t := range e.Tags {
+		if strings.HasPrefix(strings.TrimSpace(t), g.prefix) {
+			rts = append(rts, t)
+		} else {
+			plain = append(plain, t)
+		}
+	}
+	n := entry{Name: e.Name, ID: e.ID, Addr: e.Addr, Node: e.Node, Port: e.Port}
+	n.Tags = append(n.Tags, rts...)
+	switch {
+	case bad && g.chance(75):
+		n.Tags = append(n.Tags, plain...)
+		n.Tags = append(n.Tags, g.pick(quoteTags))
+	case bad && g.chance(50):
+		n.Tags = append(n.Tags, g.pick([]string{"a\nb", "x\ry", "rack \"a\""}))
+	case bad:
+		if len(rts) > 0 { // the options of a routing tag go bad
+			n.Tags[0] = strings.TrimSpace(rts[0]) + " " + g.pick([]string{"weight=abc", `host="x"`, "redirect=301,http://[::1"})
+		}
+		n.Tags = append(n.Tags, plain...)
+	default:
+		for k := g.r.Intn(3); k > 0; k-- {
+			n.Tags = append(n.Tags, g.pick(plainTags))
+		}
+	}
+	return n
+}
+
+func (g *gen) history(hid int) [][]entry {
+	k := 1 + g.r.Intn(3)
+	var base []entry
+	for j := 0; j < k; j++ {
+		e := g.goodEntry(j)
+		e.Name = fmt.Sprintf("h%d-%s", hid, e.Name) // fresh identities: nothing earlier in the process knows them
+		base = append(base, e)
+	}
+	rounds := [][]entry{base}
+	n := 2 + g.r.Intn(3)
+	cur := base
+	for r := 1; r <= n; r++ {
+		next := append([]entry{}, cur...)
+		victim := g.r.Intn(len(next))
+		next[victim] = g.mutate(base[victim], r%2 == 1) // good -> bad -> good -> bad ...
+		if g.chance(20) && len(next) > 1 {
+			next = append(next[:0:0], next[1:]...) // an instance disappears
+		}
+		rounds = append(rounds, next)
+		cur = next
+	}
+	return rounds
 }
 
 // ---------- library models on their own ----------
@@ -786,6 +1064,13 @@ func doURLTag(run *vh.Run, env map[string]string, prefix, s string) {
 		impl = vh.Some(vh.Pair(vh.HxS(r), vh.HxS(o)))
 	}
 	run.Add("lib/urltag", vh.App("CUrlTag", envTerm(env), vh.HxS(prefix), vh.HxS(s), impl), map[string]interface{}{"s": s, "route": r, "opts": o, "ok": ok})
+}
+
+func minInt(a, b int) int {
+	if a < b {
+		return a
+	}
+	return b
 }
 
 func randBytes(r *rand.Rand, alphabet string, n int) string {
@@ -857,6 +1142,11 @@ func directed() []fixed {
 		with(e1("ok", "10.0.0.2", 80, "urlprefix-/w weight=0.2 weight=0.3", "urlprefix-/w2 weight=-1", "urlprefix-/w3 weight=")),
 		with(e1("ok", "10.0.0.2", 80, "urlprefix-/p proto=http strip=/x proto=grpc proto=grpcs", "caf\xc3\xa9", "\xe6\x97\xa5")),
 		with(e1("ok", "10.0.0.2", 80, " urlprefix-/sp   a=1 \t b=2 ", " padded ", "a b")),
+		with(e1("long", "10.0.0.2", 80, "urlprefix-/long", strings.Repeat("x", 70000))),
+		with(e1("half", "10.0.0.2", 80, "urlprefix-/ok", "urlprefix-/bad weight=abc", "urlprefix-/[", "urlprefix-/ok2 strip=/ok2")),
+		with(e1("svc ", "10.0.0.2", 80, "urlprefix-/blank"), e1(" svc", "10.0.0.2", 80, "urlprefix-/blank2")),
+		with(e1("ok", "10.0.0.2", 80, "urlprefix-/cr", "a\rb"), e1("ok2", "10.0.0.2", 80, "urlprefix-/vt", "a\vb", "c\fd")),
+		with(e1("a\vb", "10.0.0.2", 80, "urlprefix-/vtname")),
 		with(e1("good", "10.0.0.1", 80, "urlprefix-/good", "blue")), // duplicate of a good instance: de-duplicated
 		with(e1("good", "10.0.0.1", 80, "urlprefix-/good strip=/g", "blue")),
 		{"", dc, []entry{e1("ok", "10.0.0.2", 80, "/x", "foo.com/y proto=tcp")}},
@@ -921,6 +1211,57 @@ func main() {
 			}
 		}
 		doRegs(run, class, g.prefix, env, es)
+	}
+
+	// histories through routecmd.build: every round is judged on its own (the model has no state)
+	nh := run.Scale(150, 2000)
+	for h := 0; h < nh; h++ {
+		g := &gen{r: run.Rng, prefix: prefixes[run.Rng.Intn(3)]}
+		env := envs[g.r.Intn(2)]
+		for r, es := range g.history(h) {
+			doRegs(run, fmt.Sprintf("history/round-%d", minInt(r, 3)), g.prefix, env, es)
+		}
+	}
+
+	// the real makeConfig against a fake catalog: directed rounds, then histories
+	theCatalog = newFakeCatalog()
+	defer theCatalog.srv.Close()
+	good := e1("good", "10.0.0.1", 80, "urlprefix-/good", "blue")
+	good2 := e1("good2", "10.0.0.3", 8080, "urlprefix-foo.com/", "urlprefix-foo.com/api strip=/api")
+	none := map[string]bool{}
+	for _, mons := range []int{1, 3} {
+		doConfig(run, "makeconfig/directed", "urlprefix-", "dc1", mons, []entry{good, good2}, none)
+		// services that emit no command at all, alone and beside good ones
+		doConfig(run, "makeconfig/directed", "urlprefix-", "dc1", mons, []entry{good, e1("bad", "10.0.0.2", 80, "urlprefix-/bad weight=abc"), good2}, none)
+		doConfig(run, "makeconfig/directed", "urlprefix-", "dc1", mons, []entry{e1("bad", "10.0.0.2", 80, "urlprefix-/bad", `a"b`), good}, none)
+		doConfig(run, "makeconfig/directed", "urlprefix-", "dc1", mons, []entry{e1("bad", "10.0.0.2", 80, "urlprefix-/[")}, none)
+		doConfig(run, "makeconfig/directed", "urlprefix-", "dc1", mons, []entry{good, e1("plain", "10.0.0.2", 80, "just-a-tag"), good2}, none)
+		doConfig(run, "makeconfig/directed", "urlprefix-", "dc1", mons, []entry{good, good2, e1("down", "10.0.0.2", 80, "urlprefix-/down")}, map[string]bool{"down": true})
+		doConfig(run, "makeconfig/directed", "urlprefix-", "dc1", mons, []entry{good, e1("half", "10.0.0.2", 80, "urlprefix-/ok", "urlprefix-/bad weight=abc")}, none)
+		doConfig(run, "makeconfig/directed", "urlprefix-", "East-1", mons, []entry{good, e1("env", "::1", 80, "urlprefix-$DC.Foo.com/${DC}")}, none)
+	}
+	nc := run.Scale(60, 600)
+	for h := 0; h < nc; h++ {
+		g := &gen{r: run.Rng, prefix: "urlprefix-"}
+		mons := 1 + g.r.Intn(4)
+		for r, es := range g.history(100000 + h) {
+			failing := map[string]bool{}
+			if g.chance(15) {
+				failing[es[g.r.Intn(len(es))].Name] = true
+			}
+			if g.chance(25) { // a service all of whose commands are dropped
+				es = append(es, g.badEntry(9, g.pick([]string{"quote-tag", "bad-path", "odd-weight", "bad-host", "empty-route"})))
+				es[len(es)-1].Name = fmt.Sprintf("h%d-only-bad", 100000+h)
+				var rts []string
+				for _, t := range es[len(es)-1].Tags {
+					if !strings.HasPrefix(strings.TrimSpace(t), g.prefix) || r%2 == 0 {
+						rts = append(rts, t)
+					}
+				}
+				es[len(es)-1].Tags = rts
+			}
+			doConfig(run, "makeconfig/history", g.prefix, "dc1", mons, es, failing)
+		}
 	}
 
 	// library models
